@@ -1293,7 +1293,26 @@ pub const M_DIDS: [&str; 2] = ["did:example:a", "did:example:b"];
 pub const M_FRAGS: [&str; 4] = ["key-1", "key-2", "key-1a", "k"];
 /// (representation, key material) of the key table: 0 bare JWK of key 1, 1 the same JWK with alg + kid metadata,
 /// 2 bare JWK of key 2, 3 / 4 publicKeyMultibase of key 1 / 2, 5 publicKeyBase58 of key 2
-pub const M_KEYS: [(&str, u8); 6] = [("jwk", 1), ("jwk+metadata", 1), ("jwk", 2), ("multibase", 1), ("multibase", 2), ("base58", 2)];
+// (representation, key). A JWK may carry a `kid` that is not its thumbprint (a rotated key that keeps its name, a key
+// named by hand): the digest is over the key, so the kid alphabet covers no kid, the own thumbprint, the OTHER key's
+// thumbprint, two names that happen to be base64url text, and one that is not.
+pub const M_KEYS: [(&str, u8); 15] = [
+  ("jwk", 1),
+  ("jwk+metadata", 1),
+  ("jwk", 2),
+  ("multibase", 1),
+  ("multibase", 2),
+  ("base58", 2),
+  ("jwk+metadata", 2),
+  ("jwk+kid=thumbprint-of-the-other-key", 1),
+  ("jwk+kid=thumbprint-of-the-other-key", 2),
+  ("jwk+kid=abcd", 1),
+  ("jwk+kid=abcd", 2),
+  ("jwk+kid=sig2024", 1),
+  ("jwk+kid=sig2024", 2),
+  ("jwk+kid=key-1", 1),
+  ("jwk+kid=key-1", 2),
+];
 pub fn mspecs() -> Vec<MSpec> {
   let mut v = Vec::new();
   for did in 0..M_DIDS.len() as u8 {
@@ -1321,7 +1340,16 @@ fn method_json(m: MSpec) -> serde_json::Value {
       MethodData::PublicKeyJwk(j)
     }
     "multibase" => MethodData::new_multibase(ed_raw_public(seed)),
-    _ => MethodData::new_base58(ed_raw_public(seed)),
+    "base58" => MethodData::new_base58(ed_raw_public(seed)),
+    other => {
+      let mut j = EdKey::new(seed).public;
+      match other.strip_prefix("jwk+kid=") {
+        Some("thumbprint-of-the-other-key") => j.set_kid(EdKey::new(3 - seed).public.thumbprint_sha256_b64()),
+        Some(kid) => j.set_kid(kid),
+        None => unreachable!("key material alphabet"),
+      }
+      MethodData::PublicKeyJwk(j)
+    }
   };
   let did = M_DIDS[m.did as usize % M_DIDS.len()];
   let mut v = serde_json::json!({
